@@ -648,9 +648,41 @@ theorem aux_electionTimer_log (m : Nat) (oth : List Nat) (maj : Nat) (st : NodeS
         simp at hx; obtain ⟨a, _, rfl⟩ := hx; simp at he
   · simp
 
+/-- how the ghost term logs move in one step (second half of "`tl u` is the log of the leader of term `u`
+    as of the last state in which it was leader"): terms without a current leader keep their term log -/
+def TlKeep (s' : Sys) (tl tl' : Nat → List Entry) : Prop :=
+  ∀ u, (∀ c, (s'.nodes c).role = .leader → (s'.nodes c).term ≠ u) → tl' u = tl u
+
+/-- the term log of a term that already had a leader only grows by appending -/
+def TlMono (s : Sys) (tl tl' : Nat → List Entry) : Prop :=
+  ∀ u, (∃ c, s.elected c u) → ∃ ext, tl' u = tl u ++ ext
+
+theorem aux_tlkeep_refl (s' : Sys) (tl : Nat → List Entry) : TlKeep s' tl tl := fun _ _ => rfl
+
+theorem aux_tlmono_refl (s : Sys) (tl : Nat → List Entry) : TlMono s tl tl := fun _ _ => ⟨[], by simp⟩
+
+theorem aux_tlkeep_set (s : Sys) (m : Nat) (st' : NodeState) (out : List (Nat × Rpc)) (tl : Nat → List Entry)
+    (L : List Entry) (hr : st'.role = .leader) : TlKeep (s.update m st' out) tl (tlSet tl st'.term L) := by
+  intro u hu
+  have hne : st'.term ≠ u := by
+    have := hu m
+    simp only [Sys.update, if_true] at this
+    exact this hr
+  simp [tlSet, Ne.symm hne]
+
 theorem aux_tinv_micro (n : Nat) (s s' : Sys) (tl : Nat → List Entry) (hi : TInv n s tl) (he : EInv n s)
-    (hw : WInv n s) (h : MicroStep n s s') : ∃ tl', TInv n s' tl' := by
+    (hw : WInv n s) (h : MicroStep n s s') : ∃ tl', TInv n s' tl' ∧ TlKeep s' tl tl' ∧ TlMono s tl tl' := by
   have he' : EInv n s' := aux_einv_micro n s s' he h
+  have keep : ∀ {s'}, TInv n s' tl → ∃ tl', TInv n s' tl' ∧ TlKeep s' tl tl' ∧ TlMono s tl tl' :=
+    fun h => ⟨tl, h, aux_tlkeep_refl _ _, aux_tlmono_refl _ _⟩
+  have win : ∀ (m : Nat) (st' : NodeState) (out : List (Nat × Rpc)), st'.role = .leader →
+      (∀ c, ¬ s.elected c st'.term) → TInv n (s.update m st' out) (tlSet tl st'.term st'.log) →
+      ∃ tl', TInv n (s.update m st' out) tl' ∧ TlKeep (s.update m st' out) tl tl' ∧ TlMono s tl tl' := by
+    intro m st' out hr hnone h
+    refine ⟨_, h, aux_tlkeep_set s m st' out tl _ hr, ?_⟩
+    intro u ⟨c, hc⟩
+    have : u ≠ st'.term := by intro hu; subst hu; exact hnone c hc
+    exact ⟨[], by simp [tlSet, this]⟩
   cases h with
   | deliver m sender rpc st' out hm hnet hh =>
     obtain ⟨w1, w2, w3⟩ := he.wfNet _ hnet
@@ -667,9 +699,10 @@ theorem aux_tinv_micro (n : Nat) (s s' : Sys) (tl : Nat → List Entry) (hi : TI
         rcases hc with ⟨hcand, hterm⟩ | hterm
         · rw [hterm]; exact hi.nfPos m (by rw [hcand]; simp)
         · omega
-      exact ⟨_, aux_tinv_win n m s tl hi he st' out hr hlog hpos
-        (aux_none_elected n m s tl hi he st' out he' hr hc) hnoae⟩
-    · refine ⟨tl, aux_tinv_keep n m s tl hi he st' out f1 ?_ f3 ?_ ?_ f4 ?_⟩
+      exact win m st' out hr (aux_none_elected n m s tl hi he st' out he' hr hc)
+        (aux_tinv_win n m s tl hi he st' out hr hlog hpos
+        (aux_none_elected n m s tl hi he st' out he' hr hc) hnoae)
+    · refine keep (aux_tinv_keep n m s tl hi he st' out f1 ?_ f3 ?_ ?_ f4 ?_)
       · intro hr
         obtain ⟨a, b⟩ := f2 hr
         refine ⟨a, b, ?_⟩
@@ -734,10 +767,17 @@ theorem aux_tinv_micro (n : Nat) (s s' : Sys) (tl : Nat → List Entry) (hi : TI
     obtain ⟨hnl, hl⟩ := aux_handleRequests_shape rs (s.nodes m) []
     by_cases hr : (s.nodes m).role = .leader
     · obtain ⟨a, b, ext, c, d⟩ := hl hr
-      exact ⟨_, aux_tinv_append n m s tl hi he _ ext hr a b c d⟩
+      refine ⟨_, aux_tinv_append n m s tl hi he _ ext hr a b c d, aux_tlkeep_set s m _ [] tl _ a, ?_⟩
+      intro u _
+      by_cases hu : u = (handleRequests (s.nodes m) [] rs).1.term
+      · refine ⟨ext, ?_⟩
+        subst hu
+        simp only [tlSet, if_true]
+        rw [c, b, hi.leaderLog m hr]
+      · exact ⟨[], by simp [tlSet, hu]⟩
     · rw [hnl hr]
-      refine ⟨tl, aux_tinv_keep n m s tl hi he _ [] (le_refl _) (fun h => absurd h hr) (fun h => absurd h hr)
-        (hi.nodeB m) (hi.pos m) (hi.nfPos m) (by simp)⟩
+      refine keep (aux_tinv_keep n m s tl hi he _ [] (le_refl _) (fun h => absurd h hr) (fun h => absurd h hr)
+        (hi.nodeB m) (hi.pos m) (hi.nfPos m) (by simp))
   | timer m hm =>
     obtain ⟨heff, _⟩ := aux_electionTimer_eff n m s.net (s.nodes m)
     obtain ⟨hlog, hnoae⟩ := aux_electionTimer_log m (others n m) (majority n) (s.nodes m)
@@ -746,23 +786,24 @@ theorem aux_tinv_micro (n : Nat) (s s' : Sys) (tl : Nat → List Entry) (hi : TI
         rcases hc with ⟨hcand, hterm⟩ | hterm
         · rw [hterm]; exact hi.nfPos m (by rw [hcand]; simp)
         · omega
-      exact ⟨_, aux_tinv_win n m s tl hi he _ _ hr hlog hpos (aux_none_elected n m s tl hi he _ _ he' hr hc) hnoae⟩
-    · refine ⟨tl, aux_tinv_keep n m s tl hi he _ _ f1 ?_ f3 (by rw [hlog]; exact hi.nodeB m)
-        (by rw [hlog]; exact hi.pos m) f4 ?_⟩
+      exact win m _ _ hr (aux_none_elected n m s tl hi he _ _ he' hr hc)
+        (aux_tinv_win n m s tl hi he _ _ hr hlog hpos (aux_none_elected n m s tl hi he _ _ he' hr hc) hnoae)
+    · refine keep (aux_tinv_keep n m s tl hi he _ _ f1 ?_ f3 (by rw [hlog]; exact hi.nodeB m)
+        (by rw [hlog]; exact hi.pos m) f4 ?_)
       · intro hr; obtain ⟨a, b⟩ := f2 hr; exact ⟨a, b, hlog⟩
       · intro x hx t l p pt es lc hxe; exact absurd hxe (hnoae x hx t l p pt es lc)
   | advance m hm =>
     obtain ⟨a, b, c, d⟩ := aux_advanceCommit_elec (others n m) (majority n) (s.nodes m)
     have hlog : (advanceCommit (others n m) (majority n) (s.nodes m)).log = (s.nodes m).log := by
       unfold advanceCommit; split <;> rfl
-    refine ⟨tl, aux_tinv_keep n m s tl hi he _ [] (by omega) ?_ ?_ (by rw [hlog]; exact hi.nodeB m)
-      (by rw [hlog]; exact hi.pos m) ?_ (by simp)⟩
+    refine keep (aux_tinv_keep n m s tl hi he _ [] (by omega) ?_ ?_ (by rw [hlog]; exact hi.nodeB m)
+      (by rw [hlog]; exact hi.pos m) ?_ (by simp))
     · intro hr; exact ⟨by rw [← c]; exact hr, a, hlog⟩
     · intro hr _; rw [c]; exact hr
     · intro hr; rw [a]; exact hi.nfPos m (by rw [← c]; exact hr)
   | heartbeat m hm =>
-    refine ⟨tl, aux_tinv_keep n m s tl hi he _ _ (le_refl _) (fun hr => ⟨hr, rfl, rfl⟩) (fun hr _ => hr)
-      (hi.nodeB m) (hi.pos m) (hi.nfPos m) ?_⟩
+    refine keep (aux_tinv_keep n m s tl hi he _ _ (le_refl _) (fun hr => ⟨hr, rfl, rfl⟩) (fun hr _ => hr)
+      (hi.nodeB m) (hi.pos m) (hi.nfPos m) ?_)
     intro x hx t l p pt es lc hxe
     unfold heartbeat at hx
     split at hx
@@ -804,8 +845,8 @@ theorem aux_tinv_micro (n : Nat) (s s' : Sys) (tl : Nat → List Entry) (hi : TI
     obtain ⟨hlog, _, _⟩ := aux_emitLoop_log ((s.nodes m).commitIndex - (s.nodes m).emittedIndex) (s.nodes m) []
       (hw.emitLe m)
     unfold emit
-    refine ⟨tl, aux_tinv_keep n m s tl hi he _ [] (by omega) ?_ ?_ (by rw [hlog]; exact hi.nodeB m)
-      (by rw [hlog]; exact hi.pos m) ?_ (by simp)⟩
+    refine keep (aux_tinv_keep n m s tl hi he _ [] (by omega) ?_ ?_ (by rw [hlog]; exact hi.nodeB m)
+      (by rw [hlog]; exact hi.pos m) ?_ (by simp))
     · intro hr; exact ⟨by rw [← c]; exact hr, a, hlog⟩
     · intro hr _; rw [c]; exact hr
     · intro hr; rw [a]; exact hi.nfPos m (by rw [← c]; exact hr)
@@ -826,7 +867,8 @@ theorem aux_tinv_microReach (n : Nat) (s : Sys) (h : MicroReach n s) : ∃ tl, T
   | init => exact ⟨_, aux_tinv_init n⟩
   | step hr hs ih =>
     obtain ⟨tl, hi⟩ := ih
-    exact aux_tinv_micro n _ _ tl hi (aux_einv_microReach n _ hr) (aux_winv_microReach n _ hr) hs
+    obtain ⟨tl', h', _⟩ := aux_tinv_micro n _ _ tl hi (aux_einv_microReach n _ hr) (aux_winv_microReach n _ hr) hs
+    exact ⟨tl', h'⟩
 
 /-- **Log matching** for every state reached by `raft_step` calls -/
 theorem aux_log_matching (n : Nat) (s : Sys) (h : Reach n s) (a b i : Nat) (ea eb : Entry)
